@@ -289,6 +289,11 @@ WINDOW_SIG = {
     "MultiLease": "C06 window local-persist-unchecked: local persist replaces a newer gossiped operation",
 }
 
+# nodes 1 and 2 exchange (node 3 is down) until node 1's operations were delivered, fed back and
+# removed from both gossip stores (SIR removal): only start-up recovery can still deliver them
+SIR_12 = [ex(1, 2), ex(1, 2), dfb(2, 1), ex(1, 2), dfb(2, 1), ex(1, 2), dfb(2, 1), dfb(1, 2),
+          ex(2, 1), dfb(1, 2), ex(2, 1), dfb(1, 2), ex(2, 1), dfb(1, 2), ex(2, 1), dfb(1, 2), dfb(2, 1), dfb(2, 1)]
+
 # directed, deterministic scenarios that must hold (no window): mutation-sensitive regressions
 HOLD_SCRIPTS = [
     ("d-overwrite-fb", {"nodes": 2, "keys": ["k1", "k2"], "steps": [
@@ -307,6 +312,18 @@ HOLD_SCRIPTS = [
         {"a": "write", "n": 2, "k": "k2", "var": "set"},
         ex(1, 2), ex(1, 2), dfb(2, 1), ex(1, 2), dfb(2, 1), ex(1, 2), dfb(2, 1), dfb(1, 2),
         ex(2, 1), dfb(1, 2), ex(2, 1), dfb(1, 2), ex(2, 1), dfb(1, 2), ex(2, 1), dfb(1, 2), dfb(2, 1), dfb(2, 1),
+        {"a": "restart", "n": 3}, {"a": "quiesce"}]}),
+    # start-up recovery AT the high-water boundary: the restarting node's high-water mark (from
+    # its own leaseholder counter) equals the version of an operation of ANOTHER leaseholder it
+    # missed while down and that gossip no longer carries
+    ("d-recover-at-highwater-1", {"nodes": 3, "keys": ["k1", "k2"], "steps": [
+        {"a": "write", "n": 3, "k": "k2", "var": "set"}, {"a": "quiesce"}, {"a": "crash", "n": 3},
+        {"a": "write", "n": 1, "k": "k1", "var": "set"}] + SIR_12 + [
+        {"a": "restart", "n": 3}, {"a": "quiesce"}]}),
+    ("d-recover-at-highwater-2", {"nodes": 3, "keys": ["k1", "k2"], "steps": [
+        {"a": "write", "n": 3, "k": "k2", "var": "set"}, {"a": "write", "n": 3, "k": "k2", "var": "del"}, {"a": "quiesce"},
+        {"a": "crash", "n": 3},
+        {"a": "write", "n": 1, "k": "k1", "var": "set"}, {"a": "write", "n": 1, "k": "k1", "var": "set"}] + SIR_12 + [
         {"a": "restart", "n": 3}, {"a": "quiesce"}]}),
     # feedback for version 1 of a key must not count towards the removal of version 2
     ("d-feedback-per-version", {"nodes": 3, "keys": ["k1"], "steps": [
